@@ -305,26 +305,29 @@ Section Eval.
     s_temps : list value;             (* evaluated operands still pending in suspended expressions *)
     s_heap : list obj;
     s_statics : list (string * string * value);     (* (declaring class, field) -> value *)
-    s_ctx : string                    (* class whose member is running, "" outside classes *)
+    s_ctx : string;                   (* class whose member is running, "" outside classes *)
+    s_dcount : nat                    (* user destructor bodies run so far *)
   }.
   Definition with_env (s : st) (e : env) : st :=
-    mkSt e (s_out s) (s_frames s) (s_temps s) (s_heap s) (s_statics s) (s_ctx s).
+    mkSt e (s_out s) (s_frames s) (s_temps s) (s_heap s) (s_statics s) (s_ctx s) (s_dcount s).
   Definition with_out (s : st) (o : list string) : st :=
-    mkSt (s_env s) o (s_frames s) (s_temps s) (s_heap s) (s_statics s) (s_ctx s).
+    mkSt (s_env s) o (s_frames s) (s_temps s) (s_heap s) (s_statics s) (s_ctx s) (s_dcount s).
   Definition with_temps (s : st) (t : list value) : st :=
-    mkSt (s_env s) (s_out s) (s_frames s) t (s_heap s) (s_statics s) (s_ctx s).
+    mkSt (s_env s) (s_out s) (s_frames s) t (s_heap s) (s_statics s) (s_ctx s) (s_dcount s).
   Definition with_heap (s : st) (h : list obj) : st :=
-    mkSt (s_env s) (s_out s) (s_frames s) (s_temps s) h (s_statics s) (s_ctx s).
+    mkSt (s_env s) (s_out s) (s_frames s) (s_temps s) h (s_statics s) (s_ctx s) (s_dcount s).
   Definition with_statics (s : st) (x : list (string * string * value)) : st :=
-    mkSt (s_env s) (s_out s) (s_frames s) (s_temps s) (s_heap s) x (s_ctx s).
+    mkSt (s_env s) (s_out s) (s_frames s) (s_temps s) (s_heap s) x (s_ctx s) (s_dcount s).
   Definition push (s : st) : st := with_env s ([] :: s_env s).
   Definition pop (s : st) : st := with_env s (tl (s_env s)).
   (* entering a callee: the caller's environment is parked (it stays a root, it is not visible) *)
   Definition enter (s : st) (sc : scope) (ctx : string) : st :=
-    mkSt [sc] (s_out s) (s_env s :: s_frames s) (s_temps s) (s_heap s) (s_statics s) ctx.
+    mkSt [sc] (s_out s) (s_env s :: s_frames s) (s_temps s) (s_heap s) (s_statics s) ctx (s_dcount s).
   Definition leave (caller callee : st) : st :=
-    mkSt (s_env caller) (s_out callee) (s_frames caller) (s_temps caller) (s_heap callee) (s_statics callee) (s_ctx caller).
-  Definition init_st : st := mkSt [] [] [] [] [] [] EmptyString.
+    mkSt (s_env caller) (s_out callee) (s_frames caller) (s_temps caller) (s_heap callee) (s_statics callee) (s_ctx caller) (s_dcount callee).
+  Definition init_st : st := mkSt [] [] [] [] [] [] EmptyString 0%nat.
+  Definition bump_dtor (s : st) : st :=
+    mkSt (s_env s) (s_out s) (s_frames s) (s_temps s) (s_heap s) (s_statics s) (s_ctx s) (S (s_dcount s)).
 
   Inductive ctl := CNormal | CReturn (v : value).
 
@@ -446,17 +449,18 @@ Section Eval.
 
   Definition get_field (s : st) (l : nat) (f : string) : res value :=
     match get_obj s l with
-    | Some o => if o_dead o then undoc "use of a destroyed object"
-                else match sc_find f (o_fields o) with Some v => Ok v | None => stuck "no such field" end
+    | Some o => match sc_find f (o_fields o) with
+                | Some v => Ok v
+                | None => if o_dead o then undoc "use of a destroyed object" else stuck "no such field"
+                end
     | None => stuck "dangling reference"
     end.
   Definition set_field (s : st) (l : nat) (f : string) (v : value) : res st :=
     match get_obj s l with
-    | Some o => if o_dead o then undoc "use of a destroyed object"
-                else match sc_find f (o_fields o) with
-                     | Some old => Ok (set_obj s l (mkObj (o_cls o) (sc_set f (widen (type_of old) v) (o_fields o)) false))
-                     | None => stuck "no such field"
-                     end
+    | Some o => match sc_find f (o_fields o) with
+                | Some old => Ok (set_obj s l (mkObj (o_cls o) (sc_set f (widen (type_of old) v) (o_fields o)) (o_dead o)))
+                | None => if o_dead o then undoc "use of a destroyed object" else stuck "no such field"
+                end
     | None => stuck "dangling reference"
     end.
 
@@ -468,7 +472,7 @@ Section Eval.
     | None =>
         match (match this_loc s with
                | Some l => match get_obj s l with
-                           | Some o => if o_dead o then None else sc_find x (o_fields o)
+                           | Some o => sc_find x (o_fields o)
                            | None => None end
                | None => None end) with
         | Some v => Ok v
@@ -486,8 +490,7 @@ Section Eval.
     | None =>
         match (match this_loc s with
                | Some l => match get_obj s l with
-                           | Some o => if o_dead o then None
-                                       else match sc_find x (o_fields o) with Some _ => Some l | None => None end
+                           | Some o => match sc_find x (o_fields o) with Some _ => Some l | None => None end
                            | None => None end
                | None => None end) with
         | Some l => set_field s l x v
@@ -516,7 +519,7 @@ Section Eval.
   Definition scope_refs (sc : scope) : list nat := flat_map (fun p => val_refs (snd p)) sc.
   Definition env_refs (e : env) : list nat := flat_map scope_refs e.
   Definition heap_refs (h : list obj) : list nat :=
-    flat_map (fun o => if o_dead o then [] else scope_refs (o_fields o)) h.
+    flat_map (fun o => scope_refs (o_fields o)) h.      (* a destroyed object's fields have been dropped *)
   Definition all_refs (s : st) (extra : list value) : list nat :=
     env_refs (s_env s) ++ flat_map env_refs (s_frames s) ++ flat_map val_refs (s_temps s)
     ++ flat_map (fun t => val_refs (snd t)) (s_statics s) ++ heap_refs (s_heap s) ++ flat_map val_refs extra.
@@ -551,7 +554,7 @@ Section Eval.
     Variable ev : st -> expr -> res (value * st).
     Variable ex : st -> stmt -> res (ctl * st).
 
-    (* destructors run derived-first; afterwards the object is dead and its fields are dropped *)
+    (* destructors run derived-first *)
     Fixpoint run_dtors (ch : list cdecl) (l : nat) (s : st) : res st :=
       match ch with
       | [] => Ok s
@@ -559,40 +562,58 @@ Section Eval.
           do s1 <- match cd_dtor cd with
                    | None => Ok s
                    | Some body =>
-                       let s0 := enter s [("this"%string, VObj (Some l) (cd_name cd))] (cd_name cd) in
+                       let s0 := enter (bump_dtor s) [("this"%string, VObj (Some l) (cd_name cd))] (cd_name cd) in
                        do (_, s') <- exec_list ex (fun _ x => Ok x) s0 body;
                        Ok (leave s s')
                    end;
           run_dtors r l s1
       end.
-    Definition destroy_obj (l : nat) (s : st) : res st :=
-      match get_obj s l with
-      | None => Ok s
-      | Some o =>
-          if o_dead o then Ok s else
-          (* marked first, as the evaluator does, so that a destructor cannot destroy it again *)
-          let s0 := set_obj s l (mkObj (o_cls o) (o_fields o) false) in
-          do s1 <- run_dtors (chain (o_cls o)) l s0;
-          match get_obj s1 l with
-          | Some o1 => Ok (set_obj s1 l (mkObj (o_cls o1) [] true))
-          | None => Ok s1
+    Fixpoint sc_remove (f : string) (sc : scope) : scope :=
+      match sc with
+      | [] => []
+      | (g, v) :: r => if String.eqb f g then r else (g, v) :: sc_remove f r
+      end.
+    (* an object that has just lost a reference: when it was the last one, run its destructors and then drop
+       its fields one at a time in declaration order, releasing in turn whatever each was the last reference to *)
+    Fixpoint release (k : nat) (extra : list value) (l : nat) (s : st) : res st :=
+      match k with
+      | 0%nat => undoc "release depth"
+      | S k =>
+          match get_obj s l with
+          | None => Ok s
+          | Some o =>
+              if o_dead o || existsb (Nat.eqb l) (all_refs s extra) then Ok s else
+              (* marked first, as the evaluator does, so that nothing destroys it again *)
+              let s0 := set_obj s l (mkObj (o_cls o) (o_fields o) true) in
+              do s1 <- run_dtors (chain (o_cls o)) l s0;
+              fold_left (fun acc f =>
+                           do sx <- acc;
+                           match get_obj sx l with
+                           | Some ox =>
+                               let v := sc_find f (o_fields ox) in
+                               let sy := set_obj sx l (mkObj (o_cls ox) (sc_remove f (o_fields ox)) true) in
+                               match v with
+                               | Some (VObj (Some m) _) => release k extra m sy
+                               | _ => Ok sy
+                               end
+                           | None => Ok sx
+                           end) (map fst (o_fields o)) (Ok s1)
           end
       end.
-    (* release every object whose last reference has gone, cascading through their fields.  When two
-       objects with user destructors die at the same moment the order is not documented. *)
+    Definition destroy_obj (l : nat) (s : st) : res st := release (S (S (List.length (s_heap s)))) [] l s.
+    (* release every object whose last reference has gone.  When one event (a scope exit) leaves several
+       objects unreferenced and more than one user destructor runs as a result, the order is not documented. *)
     Fixpoint sweep (k : nat) (extra : list value) (s : st) : res st :=
       match k with
       | 0%nat => Ok s
       | S k =>
           match unreferenced s extra with
           | [] => Ok s
-          | l :: others =>
-              let dt := filter (fun x => match nth_error (s_heap s) x with
-                                         | Some o => has_dtor (o_cls o) | None => false end) (l :: others) in
-              if Nat.ltb 1 (List.length dt) then undoc "two objects with destructors released together"
-              else
-                let first := match dt with d :: _ => d | [] => l end in
-                do s1 <- destroy_obj first s; sweep k extra s1
+          | cands =>
+              do s1 <- fold_left (fun acc l => do sx <- acc; release (S (S (List.length (s_heap sx)))) extra l sx) cands (Ok s);
+              if Nat.ltb 1 (List.length cands) && Nat.ltb (S (s_dcount s)) (s_dcount s1)
+              then undoc "several objects released together and more than one destructor ran"
+              else sweep k extra s1
           end
       end.
     Definition sweep_all (extra : list value) (s : st) : res st :=
